@@ -1,13 +1,19 @@
 /-
-  Transcription of the text gozodgen emits for ONE field (`cmd/gozodgen/writer.go`:
-  `generateFieldSchemaCode`, `generateValidatorChain`, `baseConstructor` for the basic types,
-  `generateTypedValue` for string / numeric kinds), on top of the transcription of the generator's
+  Transcription of what gozodgen emits for ONE field (`cmd/gozodgen/writer.go`:
+  `generateFieldSchemaCode`, `generateValidatorChain`, `baseConstructor`, `basicTypeConstructor`,
+  `generateTypedValue`, `isStringType`, `isPointerType`), on top of the transcription of the generator's
   own tag parser (`GenSplit`) and of its literal formatting (`GenChain`).
 
-      emitField kind ptr tag  =  the schema expression written for  `F <kind or *kind> \`gozod:"<tag>"\``
+  Round 4: the emitted expression is built as a STRUCTURE first (`Chain` = constructor expression +
+  method calls with classified arguments — what the typing judgement of `GenTyped` reads) and rendered to
+  text second;  field types are type expressions (`Ty`: the 16 basic names, `time.Time`, named struct types,
+  pointers, slices, maps, nested arbitrarily), and `baseConstructor` is transcribed as it is written: over
+  the TEXT of the type name (`getTypeNameFromAST`), including its `strings.LastIndex(typeName, "]")`.
+
+      emitField t sn tag  =  the schema expression written for  `F <t> \`gozod:"<tag>"\``  in `type <sn> struct`
 
   Strings are lists of code points; `none` = outside the modelled fragment (gozodgen refuses the tag,
-  or `strconv.Quote` of a rune whose quoting is not modelled).
+  `strconv.Quote` of a rune whose quoting is not modelled, a JSON `default=` on a slice / map field).
 -/
 import Gozod.Model.GenChain
 import Gozod.Model.GenSplit
@@ -16,53 +22,211 @@ open Gozod.TagParser Gozod.GenSplit
 
 def asc (s : String) : Str := s.toList.map Char.toNat
 
-/-- the basic Go kinds of the wide programs; `ctor` = `basicTypeConstructors[kind]` -/
-inductive Kind | string | int | int64 | float64
+/-- the keys of `basicTypes` / `basicTypeConstructors` -/
+inductive Basic
+  | string | int | int8 | int16 | int32 | int64 | uint | uint8 | uint16 | uint32 | uint64
+  | float32 | float64 | bool | complex64 | complex128
   deriving DecidableEq, Repr
 
-def Kind.ctor : Kind → Str
-  | .string => asc "gozod.String()" | .int => asc "gozod.Int()"
-  | .int64 => asc "gozod.Int64()" | .float64 => asc "gozod.Float64()"
+def Basic.all : List Basic :=
+  [.string, .int, .int8, .int16, .int32, .int64, .uint, .uint8, .uint16, .uint32, .uint64,
+   .float32, .float64, .bool, .complex64, .complex128]
 
-def startsWithBr (s : Str) : Bool := s.head? = some cLBracket || s.head? = some cLBrace
+/-- the Go spelling of the type -/
+def Basic.name : Basic → String
+  | .string => "string" | .int => "int" | .int8 => "int8" | .int16 => "int16" | .int32 => "int32" | .int64 => "int64"
+  | .uint => "uint" | .uint8 => "uint8" | .uint16 => "uint16" | .uint32 => "uint32" | .uint64 => "uint64"
+  | .float32 => "float32" | .float64 => "float64" | .bool => "bool" | .complex64 => "complex64" | .complex128 => "complex128"
+
+/-- `basicTypeConstructors[name]` without the `gozod.` prefix and the `()` -/
+def Basic.ctorName : Basic → String
+  | .string => "String" | .int => "Int" | .int8 => "Int8" | .int16 => "Int16" | .int32 => "Int32" | .int64 => "Int64"
+  | .uint => "Uint" | .uint8 => "Uint8" | .uint16 => "Uint16" | .uint32 => "Uint32" | .uint64 => "Uint64"
+  | .float32 => "Float32" | .float64 => "Float64" | .bool => "Bool" | .complex64 => "Complex64" | .complex128 => "Complex128"
+
+def Basic.ofName? (s : Str) : Option Basic := Basic.all.find? fun b => asc b.name = s
+
+/-- field type expressions: what `getTypeNameFromAST` prints and `typesToReflectType` classifies -/
+inductive Ty
+  | basic (b : Basic)
+  | time                      -- `time.Time`
+  | named (n : Str)           -- an identifier that is not a basic name: a struct type of the package
+  | ptr (t : Ty) | slice (t : Ty) | map (k v : Ty)
+  deriving DecidableEq, Repr
+
+/-- `getTypeNameFromAST` -/
+def Ty.typeName : Ty → Str
+  | .basic b => asc b.name
+  | .time => asc "time.Time"
+  | .named n => n
+  | .ptr t => 0x2A :: t.typeName
+  | .slice t => asc "[]" ++ t.typeName
+  | .map k v => asc "map[" ++ k.typeName ++ [0x5D] ++ v.typeName
+
+/-- `reflect.Kind` of `typesToReflectType(t)`, as far as the writer looks at it
+    (a named struct type becomes `any`: Interface; `time.Time` the marker struct) -/
+inductive RKind | basic (b : Basic) | pointer | slice | map | other
+  deriving DecidableEq, Repr
+
+def Ty.kind : Ty → RKind
+  | .basic b => .basic b | .ptr _ => .pointer | .slice _ => .slice | .map _ _ => .map | _ => .other
+
+/-- `isStringType` -/
+def Ty.isString : Ty → Bool
+  | .basic .string => true | .ptr (.basic .string) => true | _ => false
+/-- `isPointerType` -/
+def Ty.isPtr : Ty → Bool
+  | .ptr _ => true | _ => false
+
+/-! ### the structure of an emitted expression -/
+
+/-- an argument as gozodgen writes it -/
+inductive Arg
+  | raw (text : Str)          -- the parameter of the tag, verbatim (`fmt.Sprintf(".Min(%s)", p)`)
+  | quoted (lit : Str)        -- `strconv.Quote(p)`: the text of a Go string literal
+  | regexp (lit : Str)        -- `regexp.MustCompile("<escaped>")`
+  deriving DecidableEq, Repr
+
+structure Call where
+  name : String
+  args : List Arg
+  deriving DecidableEq, Repr
+
+/-- constructor expressions of `baseConstructor` and of the UUID / Enum special cases -/
+inductive CExpr
+  | prim (b : Basic)                 -- gozod.String() …
+  | any | time                       -- gozod.Any(), gozod.Time()
+  | fromStruct (tyText : Str)        -- gozod.FromStruct[<text>]()
+  | lazyStruct (n : Str)             -- gozod.Lazy(func() gozod.ZodType[any] { return gozod.FromStruct[<n>]() })
+  | slice (e : CExpr) | record (e : CExpr)
+  | uuid | enum (vals : List Str)    -- vals: the quoted literals
+  deriving Repr
+
+structure Chain where
+  ctor : CExpr
+  calls : List Call
+  deriving Repr
 
 def joinSep (sep : Str) : List Str → Str
   | [] => []
   | [x] => x
   | x :: xs => x ++ sep ++ joinSep sep xs
 
-/-- `generateTypedValue(method, value, fieldType)` for kind string (`strconv.Quote`) and the numeric kinds (verbatim) -/
-def typedValue (method : Str) (value : Str) (k : Kind) : Option Str :=
-  match k with
-  | .string => (GenChain.emitDefaultFixed value).map fun q => [0x2E] ++ method ++ [0x28] ++ q ++ [0x29]
-  | _ => some ([0x2E] ++ method ++ [0x28] ++ value ++ [0x29])
+def Arg.render : Arg → Str
+  | .raw t => t
+  | .quoted l => l
+  | .regexp l => asc "regexp.MustCompile(" ++ l ++ [0x29]
 
-def call1 (m : String) (ps : List Str) : Option Str :=
+def Call.render (c : Call) : Str := [0x2E] ++ asc c.name ++ [0x28] ++ joinSep (asc ", ") (c.args.map Arg.render) ++ [0x29]
+
+def CExpr.render : CExpr → Str
+  | .prim b => asc ("gozod." ++ b.ctorName ++ "()")
+  | .any => asc "gozod.Any()" | .time => asc "gozod.Time()"
+  | .fromStruct t => asc "gozod.FromStruct[" ++ t ++ asc "]()"
+  | .lazyStruct n => asc "gozod.Lazy(func() gozod.ZodType[any] { return gozod.FromStruct[" ++ n ++ asc "]() })"
+  | .slice e => asc "gozod.Slice(" ++ e.render ++ [0x29]
+  | .record e => asc "gozod.Record(" ++ e.render ++ [0x29]
+  | .uuid => asc "gozod.UUID()"
+  | .enum vals => asc "gozod.Enum(" ++ joinSep (asc ", ") vals ++ [0x29]
+
+def Chain.render (c : Chain) : Str := c.ctor.render ++ (c.calls.map Call.render).flatten
+
+/-! ### `baseConstructor(typeName, structName)` — over the text of the type name -/
+
+def cutPrefix (p s : Str) : Option Str := if p.isPrefixOf s then some (s.drop p.length) else none
+
+/-- `strings.LastIndex(s, "]")` -/
+def lastIndexRB : Str → Option Nat
+  | [] => none
+  | c :: rest =>
+    match lastIndexRB rest with
+    | some i => some (i + 1)
+    | none => if c = 0x5D then some 0 else none
+
+/-- `basicTypeConstructor` -/
+def basicCtor (name : Str) : CExpr :=
+  match Basic.ofName? name with | some b => .prim b | none => .any
+
+def trimStar (s : Str) : Str := (cutPrefix [0x2A] s).getD s
+
+/-- `baseConstructor`; the fuel is the length of the type name (every recursive call is on a proper suffix) -/
+def baseCtorF (sn : Str) : Nat → Str → CExpr
+  | 0, _ => .any
+  | f + 1, tn =>
+    match cutPrefix [0x2A] tn with
+    | some base =>
+      if (Basic.ofName? base).isSome then basicCtor base
+      else if sn ≠ [] ∧ base = sn then .lazyStruct base
+      else .fromStruct base
+    | none =>
+    match cutPrefix (asc "[]") tn with
+    | some elem =>
+      let clean := trimStar elem
+      if sn ≠ [] ∧ clean = sn then .slice (.lazyStruct clean) else .slice (baseCtorF sn f elem)
+    | none =>
+    if (asc "map[").isPrefixOf tn then
+      match lastIndexRB tn with
+      | some idx =>
+        if idx < tn.length - 1 then
+          let val := tn.drop (idx + 1)
+          let clean := trimStar val
+          if sn ≠ [] ∧ clean = sn then .record (.lazyStruct clean) else .record (baseCtorF sn f val)
+        else .record .any
+      | none => .record .any
+    else if (Basic.ofName? tn).isSome then basicCtor tn
+    else if tn = asc "time.Time" then .time
+    else if sn ≠ [] ∧ tn = sn then .lazyStruct tn
+    else if tn ≠ asc "unknown" then .fromStruct tn
+    else .any
+
+def baseCtor (t : Ty) (sn : Str) : CExpr := baseCtorF sn (t.typeName.length + 1) t.typeName
+
+/-! ### `generateValidatorChain(rule, fieldType)` -/
+
+def startsWithBr (s : Str) : Bool := s.head? = some cLBracket || s.head? = some cLBrace
+def endsWith (c : Nat) (s : Str) : Bool := s.getLast? = some c
+
+/-- `generateTypedValue(method, value, fieldType)`: `strconv.Quote` for kind String, the value verbatim for the
+    other basic kinds and for `any`/struct kinds; slices and maps: verbatim unless the (trimmed) value is bracketed —
+    then the JSON path of `generateSliceValue` / `generateMapValue`, which is not modelled (`none`);
+    pointers: the element type -/
+def typedArg (value : Str) : Ty → Option Arg
+  | .basic .string => (GenChain.emitDefaultFixed value).map Arg.quoted
+  | .ptr t => typedArg value t
+  | .slice _ =>
+    let v := trimSpace value
+    if v.head? = some cLBracket ∧ endsWith 0x5D v then none else some (.raw v)
+  | .map _ _ =>
+    let v := trimSpace value
+    if v.head? = some cLBrace ∧ endsWith 0x7D v then none else some (.raw v)
+  | _ => some (.raw value)
+
+def call1 (m : String) (ps : List Str) : Option (List Call) :=
   match ps with
-  | p :: _ => some (asc ("." ++ m ++ "(") ++ p ++ [0x29])
+  | p :: _ => some [⟨m, [.raw p]⟩]
   | [] => some []
 
-/-- `generateValidatorChain(rule, fieldType)` -/
-def chainOf (r : Rule) (k : Kind) : Option Str :=
+/-- `generateValidatorChain(rule, fieldType)`: zero or one call -/
+def chainOf (r : Rule) (t : Ty) : Option (List Call) :=
   let ps := r.params.getD []
   let n := r.name
   if n = asc "min" then call1 "Min" ps else if n = asc "max" then call1 "Max" ps
   else if n = asc "gt" then call1 "Gt" ps else if n = asc "gte" then call1 "Gte" ps
   else if n = asc "lt" then call1 "Lt" ps else if n = asc "lte" then call1 "Lte" ps
   else if n = asc "refine" then call1 "Refine" ps else if n = asc "check" then call1 "Check" ps
-  else if n = asc "email" then some (asc ".Email()") else if n = asc "url" then some (asc ".URL()")
-  else if n = asc "ipv4" then some (asc ".IPv4()") else if n = asc "ipv6" then some (asc ".IPv6()")
-  else if n = asc "trim" then some (asc ".Trim()") else if n = asc "lowercase" then some (asc ".ToLowerCase()")
-  else if n = asc "uppercase" then some (asc ".ToUpperCase()") else if n = asc "nilable" then some (asc ".Nilable()")
+  else if n = asc "email" then some [⟨"Email", []⟩] else if n = asc "url" then some [⟨"URL", []⟩]
+  else if n = asc "ipv4" then some [⟨"IPv4", []⟩] else if n = asc "ipv6" then some [⟨"IPv6", []⟩]
+  else if n = asc "trim" then some [⟨"Trim", []⟩] else if n = asc "lowercase" then some [⟨"ToLowerCase", []⟩]
+  else if n = asc "uppercase" then some [⟨"ToUpperCase", []⟩] else if n = asc "nilable" then some [⟨"Nilable", []⟩]
   else if n = asc "regex" then
     match ps with
-    | p :: _ => some (asc ".Regex(regexp.MustCompile(" ++ GenChain.emitRegex p ++ asc "))")
+    | p :: _ => some [⟨"Regex", [.regexp (GenChain.emitRegex p)]⟩]
     | [] => some []
   else if n = asc "default" ∨ n = asc "prefault" then
     match ps with
     | p :: rest =>
       let value := if !rest.isEmpty && !startsWithBr p then joinSep [0x20] ps else p
-      typedValue (if n = asc "default" then asc "Default" else asc "Prefault") value k
+      (typedArg value t).map fun a => [⟨if n = asc "default" then "Default" else "Prefault", [a]⟩]
     | [] => some []
   else some []   -- required, uuid, enum, time, unknown names: nothing
 
@@ -71,32 +235,48 @@ def allSome : List (Option Str) → Option (List Str)
   | none :: _ => none
   | some x :: xs => (allSome xs).map (x :: ·)
 
-def chainAll (rs : List Rule) (k : Kind) : Option Str :=
-  rs.foldl (fun acc r => match acc, chainOf r k with | some a, some c => some (a ++ c) | _, _ => none) (some [])
+def chainAll (rs : List Rule) (t : Ty) : Option (List Call) :=
+  rs.foldl (fun acc r => match acc, chainOf r t with | some a, some c => some (a ++ c) | _, _ => none) (some [])
 
 def hasName (rs : List Rule) (n : Str) : Bool := rs.any (·.name = n)
 
-/-- `generateFieldSchemaCode` -/
-def emitRules (k : Kind) (ptr : Bool) (rs : List Rule) : Option Str :=
+def optionalCall (b : Bool) : List Call := if b then [⟨"Optional", []⟩] else []
+
+/-- `generateFieldSchemaCode`, as a structure -/
+def emitChain (t : Ty) (sn : Str) (rs : List Rule) : Option Chain :=
   let required := hasName rs (asc "required")
-  let optional (b : Bool) : Str := if b then asc ".Optional()" else []
-  if hasName rs (asc "uuid") ∧ k = .string then
-    (chainAll (rs.filter (·.name ≠ asc "uuid")) k).map fun c => asc "gozod.UUID()" ++ c ++ optional (!required && !ptr)
+  if hasName rs (asc "uuid") ∧ t.isString then
+    (chainAll (rs.filter (·.name ≠ asc "uuid")) t).map fun c => ⟨.uuid, c ++ optionalCall (!required && !t.isPtr)⟩
   else
-    match (if k = .string then rs.find? (·.name = asc "enum") else none) with
+    match (if t.isString then rs.find? (·.name = asc "enum") else none) with
     | some e =>
       -- strconv.Quote(param) (fix 6be4d1c); `none` when a member holds a rune whose quoting is not modelled
       match allSome ((e.params.getD []).map GenChain.emitDefaultFixed) with
       | none => none
       | some vals =>
-        (chainAll (rs.filter (·.name ≠ asc "enum")) k).map fun c =>
-          asc "gozod.Enum(" ++ joinSep (asc ", ") vals ++ [0x29] ++ c ++ optional (!required && !ptr)
+        (chainAll (rs.filter (·.name ≠ asc "enum")) t).map fun c => ⟨.enum vals, c ++ optionalCall (!required && !t.isPtr)⟩
     | none =>
-      (chainAll rs k).map fun c => k.ctor ++ c ++ optional (ptr || !required)
+      (chainAll rs t).map fun c => ⟨baseCtor t sn, c ++ optionalCall (t.isPtr || !required)⟩
 
-def emitField (k : Kind) (ptr : Bool) (tag : Str) : Option Str :=
+/-- the text of the emitted expression -/
+def emitRules (t : Ty) (sn : Str) (rs : List Rule) : Option Str := (emitChain t sn rs).map Chain.render
+
+def emitField (t : Ty) (sn : Str) (tag : Str) : Option Str :=
   match genParseTag tag with
-  | .ok rs => emitRules k ptr rs
+  | .ok rs => emitRules t sn rs
   | .error _ => none
+
+/-! ### `generateImports` -/
+
+/-- import paths gozodgen writes for a struct with these fields, beside `github.com/kaptinlin/gozod`
+    (the `time` import is keyed on `field.Type.String()` containing "time.Time", which the marker type
+    `main.timeType` never does: it is never written) -/
+def importsOf (fields : List (List Rule)) : List String :=
+  let has (ns : List String) := fields.any fun rs => rs.any fun r => ns.any fun n => r.name = asc n
+  (if has ["trim", "lowercase", "uppercase"] then ["strings"] else []) ++
+  (if has ["regex"] then ["regexp"] else []) ++
+  (if has ["url"] then ["net/url"] else []) ++
+  (if has ["ipv4", "ipv6"] then ["net"] else []) ++
+  (if has ["refine", "check"] then ["github.com/kaptinlin/gozod/core"] else [])
 
 end Gozod.GenEmit
